@@ -369,7 +369,9 @@ func shape(fd *ast.FuncDecl) []string {
 			steps = append(steps, "return "+renderList(s.Results, en))
 		default:
 			flush()
-			steps = append(steps, fmt.Sprintf("unrecognised: %T", st))
+			var buf bytes.Buffer
+			printer.Fprint(&buf, fset, st)
+			steps = append(steps, fmt.Sprintf("stmt %T: %s", st, strings.Join(strings.Fields(buf.String()), " ")))
 		}
 	}
 	flush()
@@ -891,6 +893,41 @@ func main() {
 	s.WriteString(leanList("hashToCurvePointCalls", "bn256.go: callees of hashToCurvePoint", c3))
 	s.WriteString(leanList("bn256PackageState", "bn256/*.go: every write-capable use of a package-level variable inside a function body (assign / incdec / &v / method call with v as receiver)", packageState(dir+"bn256/")))
 	s.WriteString(leanList("groupsigValueUses", "sig.go, pubkey.go: methods invoked on / addresses taken of the shared-pointer field `.value` of a receiver or parameter", valueFieldUses(sigf, pkf)))
+	cmb := parse("src/common/bytes.go")
+	s.WriteString(leanList("bnIntGetHexString", "bn_curve.go: BnInt.getHexString", shape(findFunc(bcf, "BnInt", "getHexString"))))
+	s.WriteString(leanList("bnIntSetHexString", "bn_curve.go: BnInt.setHexString", shape(findFunc(bcf, "BnInt", "setHexString"))))
+	s.WriteString(leanList("sigGetHexString", "sig.go: Signature.GetHexString", shape(findFunc(sigf, "Signature", "GetHexString"))))
+	s.WriteString(leanList("sigSetHexString", "sig.go: Signature.SetHexString", shape(findFunc(sigf, "Signature", "SetHexString"))))
+	s.WriteString(leanList("pubGetHexString", "pubkey.go: Pubkey.GetHexString", shape(findFunc(pkf, "Pubkey", "GetHexString"))))
+	s.WriteString(leanList("pubSetHexString", "pubkey.go: Pubkey.SetHexString", shape(findFunc(pkf, "Pubkey", "SetHexString"))))
+	s.WriteString(leanList("pubUnmarshalJSON", "pubkey.go: Pubkey.UnmarshalJSON", shape(findFunc(pkf, "Pubkey", "UnmarshalJSON"))))
+	s.WriteString(leanList("idGetHexString", "id.go: ID.GetHexString", shape(findFunc(idf, "ID", "GetHexString"))))
+	s.WriteString(leanList("idSetHexString", "id.go: ID.SetHexString", shape(findFunc(idf, "ID", "SetHexString"))))
+	s.WriteString(leanList("idUnmarshalJSON", "id.go: ID.UnmarshalJSON", shape(findFunc(idf, "ID", "UnmarshalJSON"))))
+	s.WriteString(leanList("commonHex2Bytes", "common/bytes.go: Hex2Bytes", shape(findFunc(cmb, "", "Hex2Bytes"))))
+	s.WriteString(leanList("commonBytes2Hex", "common/bytes.go: Bytes2Hex", shape(findFunc(cmb, "", "Bytes2Hex"))))
+	s.WriteString(leanList("commonToHex", "common/bytes.go: ToHex", shape(findFunc(cmb, "", "ToHex"))))
+	skf := parse(dir + "seckey.go")
+	cty := parse("src/common/types.go")
+	cut := parse("src/common/utils.go")
+	s.WriteString(leanList("sigIsEqual", "sig.go: Signature.IsEqual", shape(findFunc(sigf, "Signature", "IsEqual"))))
+	s.WriteString(leanList("pubIsEqual", "pubkey.go: Pubkey.IsEqual", shape(findFunc(pkf, "Pubkey", "IsEqual"))))
+	s.WriteString(leanList("pubGetAddress", "pubkey.go: Pubkey.GetAddress", shape(findFunc(pkf, "Pubkey", "GetAddress"))))
+	s.WriteString(leanList("aggregatePubkeys", "pubkey.go: AggregatePubkeys", shape(findFunc(pkf, "", "AggregatePubkeys"))))
+	s.WriteString(leanList("generatePubkey", "pubkey.go: GeneratePubkey", shape(findFunc(pkf, "", "GeneratePubkey"))))
+	s.WriteString(leanList("seckeyIsValid", "seckey.go: Seckey.IsValid", shape(findFunc(skf, "Seckey", "IsValid"))))
+	s.WriteString(leanList("seckeyIsEqual", "seckey.go: Seckey.IsEqual", shape(findFunc(skf, "Seckey", "IsEqual"))))
+	s.WriteString(leanList("aggregateSeckeys", "seckey.go: AggregateSeckeys", shape(findFunc(skf, "", "AggregateSeckeys"))))
+	s.WriteString(leanList("newSeckeyFromByte", "seckey.go: newSeckeyFromByte", shape(findFunc(skf, "", "newSeckeyFromByte"))))
+	s.WriteString(leanList("newSeckeyFromRand", "seckey.go: NewSeckeyFromRand", shape(findFunc(skf, "", "NewSeckeyFromRand"))))
+	s.WriteString(leanList("newSeckeyFromBigInt", "seckey.go: NewSeckeyFromBigInt", shape(findFunc(skf, "", "NewSeckeyFromBigInt"))))
+	s.WriteString(leanList("idIsValid", "id.go: ID.IsValid", shape(findFunc(idf, "ID", "IsValid"))))
+	s.WriteString(leanList("idToAddress", "id.go: ID.ToAddress", shape(findFunc(idf, "ID", "ToAddress"))))
+	s.WriteString(leanList("newIDFromPubkey", "id.go: NewIDFromPubkey", shape(findFunc(idf, "", "NewIDFromPubkey"))))
+	s.WriteString(leanList("addressSetBytes", "common/types.go: Address.SetBytes", shape(findFunc(cty, "Address", "SetBytes"))))
+	s.WriteString(leanList("shortHex12", "common/utils.go: ShortHex12", shape(findFunc(cut, "", "ShortHex12"))))
+	s.WriteString(leanList("bnIntMod", "bn_curve.go: BnInt.mod", shape(findFunc(bcf, "BnInt", "mod"))))
+	s.WriteString(leanList("bnIntAdd", "bn_curve.go: BnInt.add", shape(findFunc(bcf, "BnInt", "add"))))
 	s.WriteString(leanList("groupsigExternalUses", "groupsig/*.go: everything used from other go-rangers packages (no chain configuration, no fork flags, no block height)", externalUses(dir)))
 	s.WriteString(leanList("bn256ExternalUses", "bn256/*.go: everything used from other go-rangers packages (nothing)", externalUses(dir+"bn256/")))
 	s.WriteString("end Rangers.Generated.Bls14.Shape\n")
